@@ -4,6 +4,7 @@ import (
 	"fmt"
 	"math"
 	"reflect"
+	"regexp"
 	"strconv"
 	"strings"
 	"time"
@@ -15,6 +16,9 @@ import (
 // reference (default scheme configured), the registered schemes and the
 // provider table.
 type world struct {
+	defEnv  bool              // the default scheme is the real "env" provider (else the fake "dd")
+	envDef  map[string]string // unset variables resolved through ":-default": NAME -> default text ("\x00" = inconsistent)
+	synth   map[string]*Entry // rows synthesised for env defaults / unset variables / inline yaml
 	def     bool
 	schemes map[string]bool
 	table   map[string]*Entry
@@ -100,8 +104,13 @@ func (w *world) resolveRef(seg Seg, stack []string) refInfo {
 	}
 	scheme := seg.Scheme
 	if scheme == "" {
-		scheme = defaultScheme
+		scheme = w.defaultScheme()
 		if strings.Contains(nt, ":") {
+			if w.defEnv && !dollar {
+				// ${NAME:-default} in braces syntax: the resolver reads "NAME" as a scheme; the statement is silent
+				w.count("braces-with-default")
+				return refInfo{special: "unknown-scheme", name: name, uri: "${" + nt + "}"}
+			}
 			w.discard = "default-name-with-colon"
 		}
 	}
@@ -119,6 +128,45 @@ func (w *world) resolveRef(seg Seg, stack []string) refInfo {
 	case onStack(stack, ri.key):
 		ri.special = "cycle"
 		w.checkDoubling(stack, ri.key)
+	case scheme == "env":
+		// the REAL env provider: NAME[:-default]; invalid names are an error (RFC: "When an invalid
+		// identifier is found, an error is emitted"); set -> its value (even empty); unset -> default, else empty
+		varName, dflt, hasDefault := strings.Cut(nt, ":-")
+		switch row := w.table["env:"+varName]; {
+		case !envNameRe.MatchString(varName):
+			ri.special = "provider"
+			w.count("env:invalid-name")
+		case row != nil:
+			ri.entry = row
+			w.count("env:set")
+			if hasDefault {
+				w.count("env:set-default-ignored")
+			}
+		case hasDefault:
+			ri.entry = w.synthRow("env:"+varName+":-"+dflt, dflt)
+			w.count("env:unset-default")
+			if old, seen := w.envDef[varName]; seen && old != dflt {
+				w.envDef[varName] = "\x00"
+			} else {
+				w.envDef[varName] = dflt
+			}
+		default:
+			ri.entry = w.synthRow("env:"+varName, "")
+			w.count("env:unset-empty")
+			w.envDef[varName] = "\x00" // also used without default: cannot be "set to its default"
+		}
+		if ri.entry != nil && onStack(stack, ri.entry.Key) {
+			ri.special, ri.entry = "cycle", nil
+		}
+		if ri.entry != nil {
+			ri.key = ri.entry.Key
+			w.checkSupported(ri.entry)
+		}
+	case scheme == "yaml":
+		// the REAL yaml provider: the text after "yaml:" is the value
+		ri.entry = w.synthRow(ri.key, nt)
+		w.count("yaml-inline")
+		w.checkSupported(ri.entry)
 	case w.table[ri.key] == nil:
 		ri.special = "provider"
 	default:
@@ -131,6 +179,37 @@ func (w *world) resolveRef(seg Seg, stack []string) refInfo {
 		}
 	}
 	return ri
+}
+
+var envNameRe = regexp.MustCompile(`^[a-zA-Z_][a-zA-Z0-9_]*$`)
+
+func (w *world) defaultScheme() string {
+	if w.defEnv {
+		return "env"
+	}
+	return defaultScheme
+}
+
+// synthRow is the row a real provider computes from the reference itself (a default value, an inline YAML text).
+func (w *world) synthRow(key, text string) *Entry {
+	if e, ok := w.synth[key]; ok {
+		return e
+	}
+	e := &Entry{Key: key, Val: seqVal()}
+	if text != "" {
+		e.Val = seqVal(lit(text))
+	}
+	w.synth[key] = e
+	return e
+}
+
+// a text the provider itself rejects (uint64, non-string map keys, …) is outside the contract
+func (w *world) checkSupported(e *Entry) {
+	if k := e.Val.K; k == "seq" || k == "raw" {
+		if kind, _ := w.classifyEntry(e); kind == "unsupported" {
+			w.discard = "unsupported-yaml-type"
+		}
+	}
 }
 
 // checkDoubling flags cycles in which one value mentions a cycle member more
@@ -422,6 +501,28 @@ func (n *snode) proj(depth int, root bool, hit *bool) any {
 	return n.Str
 }
 
+// snodeOfPlain is the string view of a reference-free map/list parsed from a
+// provider text: string leaves are themselves, other scalars have no text.
+func snodeOfPlain(v any) *snode {
+	switch x := v.(type) {
+	case map[string]any:
+		n := &snode{Kind: "map", M: map[string]*snode{}}
+		for k, e := range x {
+			n.M[k] = snodeOfPlain(e)
+		}
+		return n
+	case []any:
+		n := &snode{Kind: "list"}
+		for _, e := range x {
+			n.L = append(n.L, snodeOfPlain(e))
+		}
+		return n
+	case string:
+		return &snode{Kind: "leaf", Str: x}
+	}
+	return &snode{Kind: "leaf", Raw: v}
+}
+
 // classify parses a provider text the way the RFC describes (YAML): kind is
 // string | scalar | struct | unsupported.
 func classify(text string) (kind string, v any) {
@@ -595,7 +696,7 @@ func (w *world) evalSeq(seq []Seg, stack []string, depth int) Res {
 			return r
 		}
 		w.count("whole-accidental-struct")
-		r.Typed, r.Str, r.Wrapped = v, text, true
+		r.Typed, r.Str, r.Wrapped, r.SNode = v, text, true, snodeOfPlain(v)
 		return r
 	}
 	w.discard = "unsupported-yaml-type"
